@@ -15,6 +15,8 @@ import (
 	"fmt"
 	"os"
 	"path/filepath"
+	"strconv"
+	"strings"
 	"sync"
 	"testing"
 	"time"
@@ -25,6 +27,7 @@ import (
 	"go.minekube.com/gate/pkg/edition/java/proxy"
 	"go.minekube.com/gate/pkg/edition/java/proxy/phase"
 	"go.minekube.com/gate/pkg/util/configutil"
+	"go.minekube.com/gate/pkg/verifexport"
 
 	"verif/harness/mcwire"
 	"verif/harness/rig"
@@ -39,11 +42,37 @@ type hist struct {
 	Count int      `json:"count"` // caps histories: messages sent while the backend is held back
 	Size  int      `json:"size"`  // ... their data size
 	Last  int      `json:"last"`  // ... data size of the last one
+	Zero  bool     `json:"zero"`  // messages sent before the first backend is released have an empty body
 	Order []string `json:"order"` // forced gate order (TestSched)
 	K     int      `json:"k"`
 }
 
+// queued counts the proxy's "message queued" events by body size: the fault histories use
+// sizes of their own, so they can wait until the proxy really holds what they sent.
+type queued struct {
+	mu sync.Mutex
+	n  map[int]int
+}
+
+func (q *queued) hook(gate bool, name string, kv []any) {
+	if name != "pmq.cfg.queued" {
+		return
+	}
+	for i := 0; i+1 < len(kv); i += 2 {
+		if kv[i] == "n" {
+			if v, ok := kv[i+1].(int); ok {
+				q.mu.Lock()
+				q.n[v]++
+				q.mu.Unlock()
+			}
+		}
+	}
+}
+
+func (q *queued) get(size int) int { q.mu.Lock(); defer q.mu.Unlock(); return q.n[size] }
+
 type env struct {
+	q     *queued
 	pcmu  sync.Mutex
 	pc    map[string]int // ServerPostConnectEvents per player: the join is complete for the proxy's API
 	r     *rig.Rig
@@ -119,6 +148,14 @@ func (x *run) notef(f string, a ...any) {
 
 func (x *run) msg(size int) {
 	x.sent++
+	if size == 0 {
+		// a zero-length body cannot carry the index: the channel name does
+		x.emit(tracefmt.Rec{"ev": "csend", "k": x.sent, "n": 0, "state": x.c.SBState()})
+		if err := x.c.SendPlugin(fmt.Sprintf("%sz%d", channel, x.sent), nil); err != nil {
+			x.notef("send %d failed: %v", x.sent, err)
+		}
+		return
+	}
 	x.emit(tracefmt.Rec{"ev": "csend", "k": x.sent, "n": max(size, 4), "state": x.c.SBState()})
 	if err := x.c.SendPlugin(channel, payload(x.sent, size)); err != nil {
 		x.notef("send %d failed: %v", x.sent, err)
@@ -279,7 +316,9 @@ func (x *run) finishRun() {
 		})
 		for _, p := range received(x.target.Log(), x.target.Proto) {
 			k := 0
-			if len(p.Data) >= 4 {
+			if len(p.Channel) > len(channel) {
+				k, _ = strconv.Atoi(p.Channel[len(channel)+1:])
+			} else if len(p.Data) >= 4 {
 				k = int(binary.BigEndian.Uint32(p.Data))
 			}
 			x.emit(tracefmt.Rec{"ev": "brecv", "k": k, "n": len(p.Data), "state": p.State})
@@ -304,7 +343,7 @@ func (x *run) finishRun() {
 
 func received(l []rig.Recv, protoV int) (out []rig.PluginRecv) {
 	for _, p := range rig.Plugins(l, protoV) {
-		if p.Channel == channel {
+		if strings.HasPrefix(p.Channel, channel) {
 			out = append(out, p)
 		}
 	}
@@ -349,14 +388,19 @@ func (e *env) play(hi int, h hist) []tracefmt.Rec {
 		case "msg":
 			if h.Size > 0 {
 				x.msg(h.Size)
+			} else if h.Zero && !released {
+				x.msg(0)
 			} else {
 				x.msg(8 + (x.sent*7+hi)%40)
 			}
 		case "failready":
 			// fault: the first backend's login succeeds and it dies at once, so the proxy's
 			// flush of the queued messages hits a dead connection; the proxy falls back to "b"
-			if h.Size > 0 {
-				time.Sleep(400 * time.Millisecond) // let the proxy queue the big messages first
+			if h.Size > 0 && e.q != nil {
+				// the proxy must hold all the big messages before the fault strikes
+				if !rig.WaitFor(20*time.Second, func() bool { return e.q.get(h.Size) >= x.sent }) {
+					x.notef("the proxy queued only %d of %d messages", e.q.get(h.Size), x.sent)
+				}
 			}
 			time.Sleep(e.pace)
 			_ = cur.SendLoginSuccess()
@@ -399,8 +443,10 @@ func (e *env) play(hi int, h hist) []tracefmt.Rec {
 			}
 			cur, x.target = nb, nb
 		case "ready":
-			if h.Size > 0 {
-				time.Sleep(400 * time.Millisecond) // let the proxy take in the big messages first
+			if h.Size > 0 && e.q != nil {
+				if !rig.WaitFor(20*time.Second, func() bool { return e.q.get(h.Size) >= x.sent || x.disconnected() }) {
+					x.notef("the proxy queued only %d of %d messages", e.q.get(h.Size), x.sent)
+				}
 			}
 			time.Sleep(e.pace)
 			release()
@@ -557,6 +603,9 @@ func TestHist(t *testing.T) {
 	hists := load(t, "hist.json")
 	e, done := newEnv(t)
 	defer done()
+	e.q = &queued{n: map[int]int{}}
+	verifexport.InstallHook(e.q.hook)
+	defer verifexport.InstallHook(nil)
 	tw, err := tracefmt.Create("trace_hist.ndjson")
 	if err != nil {
 		t.Fatal(err)
